@@ -498,6 +498,63 @@ def generate(seed=0, validate=True, write=True, only=None):
     return stats, changed
 
 
+def kernel_fold_check(seed=0, n=12):
+    """Structural premise of C02/C13: the kernel loop is `fold_left step`: row j+1 depends only on row j,
+    increment i, dt[i] and the flag.  Trace two increments symbolically and compare row 2 with the one-step
+    IR applied twice (and check that row 2 mentions no row-0 variable except through row 1 — implied by
+    equality on random inputs of a DAG that is a function of the declared variables only)."""
+    rng = random.Random(seed + 77)
+    out = []
+    for with_alt, nm in ((True, 'step3d'), (False, 'step2d')):
+        e1 = [e for e in REGISTRY if e['name'] == nm][0]
+        ctx1, paths1 = trace_entry(e1)
+        TRACES[(e1['module'], nm)] = (e1, ctx1, paths1)
+        for e in REGISTRY:
+            if e['name'] in ('nb_gravity', 'mat_from_rotvec') and (e['module'], e['name']) not in TRACES:
+                c, p = trace_entry(e)
+                TRACES[(e['module'], e['name'])] = (e, c, p)
+        names2 = [p for p, _ in KPARAMS] + ['dtB'] + [f'thB{i}' for i in range(3)] + [f'dvB{i}' for i in range(3)]
+
+        def fn2():
+            V = lambda name: Sym.var(name)
+            A = lambda x: sym._obj(x)
+            E = sym.np_proxy.empty
+            lla, vel, mat = E((3, 3)), E((3, 3)), E((3, 3, 3))
+            lla[0] = A([V('lat'), V('lon'), V('alt')])
+            vel[0] = A([V('VN'), V('VE'), V('VD')])
+            mat[0] = A([[V(f'C{i}{j}') for j in range(3)] for i in range(3)])
+            theta = A([[V('th0'), V('th1'), V('th2')], [V('thB0'), V('thB1'), V('thB2')]])
+            dv = A([[V('dv0'), V('dv1'), V('dv2')], [V('dvB0'), V('dvB1'), V('dvB2')]])
+            dt = A([V('dt'), V('dtB')])
+            _pyf(ni.integrate)(dt, lla, vel, mat, theta, dv, 0, with_alt)
+            return _kernel_outs(lla, vel, mat, row=2)
+        with patched(ALL_MODS, KEXTRA):
+            ctx2, paths2 = sym.enumerate_paths(fn2)
+        tab = calls_table()
+        worst = 0.0
+        for _ in range(n):
+            env = {p: rng.uniform(*r) for p, r in KPARAMS}
+            envB = {'dtB': rng.uniform(0.001, 0.05)}
+            envB.update({f'thB{i}': rng.uniform(-0.1, 0.1) for i in range(3)})
+            envB.update({f'dvB{i}': rng.uniform(-1, 1) for i in range(3)})
+            two = sym.eval_paths(ctx2, paths2, dict(env, **envB), tab)
+            one = sym.eval_paths(ctx1, paths1, env, tab)
+            env2 = dict(one)
+            env2.update(dt=envB['dtB'])
+            env2.update({f'th{i}': envB[f'thB{i}'] for i in range(3)})
+            env2.update({f'dv{i}': envB[f'dvB{i}'] for i in range(3)})
+            comp = sym.eval_paths(ctx1, paths1, env2, tab)
+            for k in comp:
+                err = abs(comp[k] - two[k]) / max(1.0, abs(two[k]))
+                worst = max(worst, err)
+                if not err <= 1e-12:
+                    raise TraceError(f"kernel is not a fold of its one-step map: {nm}.{k} two-step trace "
+                                     f"{two[k]!r} vs step∘step {comp[k]!r}")
+        out.append(dict(function=nm + ' (two-increment trace = step∘step)', samples=n, paths=len(paths2),
+                        nodes=len(ctx2.nodes), max_rel_err=worst))
+    return out
+
+
 def _load_regs():
     """Import every tools/reg/*.py: each registers further traced functions with
     `@gen.traced(...)` (one file per area, so that they can be edited independently)."""
